@@ -11,7 +11,12 @@ const requireLibs = "CTree.CTreeModel Path.PathModel Cache.CacheModel Cache.Mult
 const caseTypeName = "c14case"
 const checkFnName = "check_all"
 
-func wrapCase(term string) string { return "CSeq " + term }
+func wrapCase(t *termer, c *Case, term string) string {
+	if c.Cfg.Srv != "" {
+		return "CSeqS " + t.str(c.Cfg.Srv) + " " + term
+	}
+	return "CSeq " + term
+}
 
 // latency histories belong to C15
 func addLatCase(e *emitter, c *Case) {}
@@ -256,6 +261,13 @@ func randomCase(r *vh.Rand, stream bool, maxOps int) *Case {
 	if r.Chance(1, 3) {
 		c.Cfg.Thr = 2
 	}
+	// construction options of the cache
+	if r.Chance(1, 3) {
+		c.Cfg.Srv = []string{"collector-1", "srv"}[r.Intn(2)]
+	}
+	if r.Chance(1, 4) {
+		c.Cfg.Excl = [][]string{{"sync"}, {"targetLeaves", "connectedAddress"}, {"latestTimestamp", "connected", "connectError"}}[r.Intn(3)]
+	}
 	n := 3 + r.Intn(maxOps-2)
 	wSub := 0
 	if stream {
@@ -336,6 +348,10 @@ func ruleText() string {
 		"nested: 2..3 STREAM subscribers of one target on nested / sibling subscription paths (a, a/b, a/c, a/b/x, d, whole target, *) disconnecting in " +
 		"every order before an update / device delete / Reset / Remove; backlog: subscribers whose Send is blocked while updates queue up, then " +
 		"Reset / Remove / device delete / re-Add, then the release; " +
+		"options: cache built with/without a server name x future threshold x excluded metadata x event-driven emulation, through Sync / Connect / " +
+		"UpdateMetadata / Reset / wildcard delete / Remove / re-Add (the random family draws these options too); " +
+		"names: roots / origins named openconfig, Openconfig, default, the target's own name, another target's name, meta, * under Reset / Remove / " +
+		"device delete with single-target and * subscribers open and traffic afterwards; " +
 		"atomicity of [mutate; announce]: a call X (Remove / Reset / update / delete / Sync / Connect) parked inside its first cache.Now() or inside its " +
 		"first feed callback while calls Y (Add+update, update, delete, Reset, Remove, update of another target) run on a second goroutine " +
 		"against the same name, every X x park point x Y; " +
@@ -367,4 +383,6 @@ func generate(e *emitter, o vh.Opts) {
 	}
 	generateConc(e, o, r.Fork())
 	generateSubs(e, o, r.Fork())
+	generateNames(e, o)
+	generateOptions(e, o)
 }
